@@ -79,6 +79,7 @@ pub async fn run_case(case: Vec<String>) -> String {
         mock.name = "TCP";
     }
     let tpname = mock.name;
+    let fail_send = mock.fail_send.clone();
     let tp = TpHandle::new(mock);
     let evlog: EvLog = Default::default();
     let taken: Arc<Mutex<Vec<IncomingRequest>>> = Default::default();
@@ -164,6 +165,13 @@ pub async fn run_case(case: Vec<String>) -> String {
             }
             "A" => {
                 inject(&endpoint, &ack, source, &tp);
+            }
+            "X" => {
+                // a retransmission whose answer the transport refuses to send (a transient sendto error)
+                fail_send.store(true, std::sync::atomic::Ordering::SeqCst);
+                inject(&endpoint, &req, source, &tp);
+                settle_now().await;
+                fail_send.store(false, std::sync::atomic::Ordering::SeqCst);
             }
             _ => {}
         }
